@@ -25,13 +25,14 @@ MANIFEST = {
             "own one), request_nonce_used_at_most_once / nonce_never_reused (per life of the process, no hypothesis on the application: a "
             "response re-uses the nonce of a request at most once per accepted request; all nonces handed to the AEAD are pairwise "
             "distinct), forged_b2_response_no_trace (Appendix B.2 client: a response that does not verify leaves b_2_step and the ID "
-            "Context untouched). Also OBSERVED on the implementation alone: the (key, nonce) pair really handed to the AEAD "
+            "Context untouched) and forged_b2_request_no_trace (server: a request that does not verify leaves b_2_step, oscore_r2 "
+            "and the set of security contexts untouched). Also OBSERVED on the implementation alone: the (key, nonce) pair really handed to the AEAD "
             "(--wrap=cose_encrypt0_encrypt) for every request, response and notification an endpoint protects while requests, Observe "
             "registrations and forged requests arrive must be pairwise distinct and, without Partial IV, be the nonce of an accepted "
             "request (step theorems only: notification_fresh_piv, observe_response_fresh_piv, forged_request_no_association).",
     "note": "Trusted: Lean kernel (+ propext, Classical.choice, Quot.sound), harness/replay.c, generators and the Python monitor, the "
             "hand transcription M (checked against the compiled code on the cases run only). The AEAD is an oracle (authentic / forged). "
-            "piv_never_reused assumes fewer than 2^63 operations (uint64 counter). Thirteen defects of the pinned tree were fixed "
+            "piv_never_reused assumes fewer than 2^63 operations (uint64 counter). Fourteen defects of the pinned tree were fixed "
             "(KNOWN_FINDINGS.txt); M models the fixed code. 'At most once' is claimed for requests (the property text); replays of "
             "responses are only rejected once the window is initialised (SPEC DECISION D15f).",
     "design_ref": "DESIGN.md §4 C15, design/C15.md",
@@ -47,7 +48,8 @@ REQUIRED_THEOREMS = ["accept_at_most_once", "recorded_at_most_once", "forged_nev
                      "client_association_never_responds", "own_piv_strictly_increasing", "own_nonce_never_reused",
                      "response_nonce_is_peers", "accept_at_most_once_across_restarts", "nothing_below_echo_request",
                      "request_nonce_used_at_most_once", "request_nonce_used_at_most_once_per_life", "nonce_never_reused",
-                     "forged_b2_response_no_trace", "forged_b2_history_no_trace"]
+                     "forged_b2_response_no_trace", "forged_b2_history_no_trace", "forged_b2_request_no_trace",
+                     "forged_b2_requests_no_trace"]
 RULE = ("recipient: histories of <= 30 protected messages delivered through coap_oscore_decrypt_pdu to ONE fresh recipient context: "
         "requests (authentic with/without/with wrong Echo, forged with any claimed Partial IV) and, interleaved, responses to an "
         "Observe registration of that endpoint (authentic notifications carrying the peer's sequence number as Partial IV, forged "
@@ -67,6 +69,7 @@ RULE = ("recipient: histories of <= 30 protected messages delivered through coap
         "crashes + restarts (ssn_freq 0..2^32-1, start values next to 2^40-1), all sequences of length <= 3 over 11 symbols; "
         "Appendix B.2 client response path (b2c): responses that do not verify with every form of kid context field (absent, empty, "
         "not CBOR, 0..23 bytes, the current ID Context), all sequences of length <= 3 over 7 forms + random lines; "
+        "Appendix B.2 server request path (b2s): requests that do not verify, kid context 0..23 bytes, before and during an exchange; "
         "the fixed corpus. "
         "non-trivial = distinct history in which at least one message was accepted / one PIV was sent")
 TRUSTED_BASE = ["Lean 4.33 kernel; axioms allowed: propext, Classical.choice, Quot.sound (audited per theorem each run)",
@@ -419,6 +422,11 @@ def generate(ctx, escalate=False):
     b2 += [gen_b2c(rng) for _ in range(n // 12)]
     ctx.cov["b2c"] = ("Appendix B.2 client response path, responses that do not verify: all sequences of length <= 3 over 7 kid "
                       "context forms + %d random (%d cases)" % (n // 12, len(b2)))
+    out += b2
+    b2 = ["b2s " + " ".join(e) for k in (1, 2, 3) for e in itertools.product(["R", "x0", "x3", "x8", "X8", "X12"], repeat=k)]
+    b2 += [gen_b2s(rng) for _ in range(n // 12)]
+    ctx.cov["b2s"] = ("Appendix B.2 server request path, requests that do not verify (step 2 and, after the set-up R, step 4): all "
+                      "sequences of length <= 3 over 6 symbols + %d random (%d cases)" % (n // 12, len(b2)))
     out += b2
     nx = exhaustive_nonces(4 if thorough else 3)
     ne = exhaustive_endp(4 if thorough else 3)
@@ -802,6 +810,46 @@ def judge_b2c(ctx, c):
     return None
 
 
+def judge_b2s(ctx, c):
+    """Appendix B.2, server side: every x/X event of a `b2s` line is a request that does NOT verify.  Property on the
+    implementation's own output: it is rejected and b_2_step, oscore_r2 and the security contexts of the coap_context_t
+    (number, ID Context of each) are exactly as after the previous event (`R` is a set-up step, not a message)."""
+    i, m = c["impl"] or "", c["model"] or ""
+    if i.startswith("crash"):
+        return ("spec", "the implementation aborted: " + i[:200])
+    evs = c["input"].split()[1:]
+    toks = i.split()
+    if len(toks) != len(evs):
+        return ("tie", "harness printed %d results for %d events: %s" % (len(toks), len(evs), i[:120]))
+    prev = "0,0,1,-"
+    for k, (ev, t) in enumerate(zip(evs, toks)):
+        if t in ("bad-ev", "fail"):
+            continue
+        if ":" not in t:
+            return ("tie", "unexpected harness token %r" % t)
+        verdict, st = t.split(":", 1)
+        if ev == "R":
+            prev = st
+            continue
+        if verdict == "acc":
+            return ("spec", "event %d (%s): a request that does not verify was accepted" % (k + 1, ev))
+        if st != prev:
+            return ("spec", "event %d (%s): a forged request changed the Appendix B.2 state of the server "
+                            "(b_2_step, oscore_r2 set, number of security contexts, their ID Contexts): %s -> %s" % (k + 1, ev, prev, st))
+    if i != m:
+        return ("tie", "implementation %s but model M says %s" % (i[:170], m[:170]))
+    return None
+
+
+def gen_b2s(rng):
+    n = rng.randint(1, 8)
+    evs = []
+    for _ in range(n):
+        c = rng.random()
+        evs.append("R" if c < 0.2 else rng.choice("xX") + str(rng.choice([0, 1, 3, 8, 8, 9, 16, 23, rng.randint(0, 23)])))
+    return "b2s " + " ".join(evs)
+
+
 def gen_b2c(rng):
     n = rng.randint(1, 8)
     evs = []
@@ -816,6 +864,8 @@ def judge(ctx, c):
     op = c["input"].split()[0]
     if op == "b2c":
         return judge_b2c(ctx, c)
+    if op == "b2s":
+        return judge_b2s(ctx, c)
     if op == "endp":
         return judge_endp(ctx, c)
     if op == "nonces":
@@ -847,6 +897,8 @@ def nontrivial(c):
         return "/" in i
     if op == "b2c":
         return "drop:" in i
+    if op == "b2s":
+        return "rej" in i
     return i.startswith("1:") or i.startswith("0:")
 
 
@@ -903,8 +955,8 @@ def shrink(ctx, case):
     from vlib.runner import diff_side
     import props.C15 as me
     w = case["input"].split()
-    hdr = 6 if w[0] == "replayst" else 2 if w[0] == "nonces" else 5 if w[0] == "endp" else 1 if w[0] == "b2c" else 3
-    if w[0] not in ("replay", "replayst", "sender", "nonces", "endp", "b2c") or len(w) < hdr + 2:
+    hdr = 6 if w[0] == "replayst" else 2 if w[0] == "nonces" else 5 if w[0] == "endp" else 1 if w[0] in ("b2c", "b2s") else 3
+    if w[0] not in ("replay", "replayst", "sender", "nonces", "endp", "b2c", "b2s") or len(w) < hdr + 2:
         return case
     best, evs = case, w[hdr:]
     changed, rounds = True, 0
